@@ -110,6 +110,25 @@ CHECKS = {
              "NOT proved, only exercised.",
         technique=PROOF_TECH + "; encoder against a spec function defined by the code itself, decoder post-condition, loop "
                   "invariants for the list codec; bounded companion for VLQ / RT1 / messages / store"),
+    'C17': dict(
+        category='proof', design_ref='6/C17',
+        text="get_merkle_root is verified from source against the specification function mroot ([x] -> x; l -> mroot of the "
+             "next level, where neighbours are hashed pairwise and an odd last entry is promoted unchanged): loop invariant "
+             "'new_list is the first k entries of the next level', the recursive call through the function's own contract, "
+             "termination by the decreasing length, no IndexError; calc_merkle_root_hash returns mroot of the transaction "
+             "ids in block order. lean/Merkle.lean (Lean 4 core, re-checked by the kernel on every run) proves for the same "
+             "equations, over a free hash algebra, that mroot determines the ordered id list for lists of ANY length "
+             "(root_injective), so substituting, reordering, removing, appending or duplicating entries - duplicating the "
+             "last one in particular (duplicate_last_changes) - changes the commitment unless the list is identical. The "
+             "two specification texts (SMT ghost axioms, Lean definitions) are tied together by machine-checked unfolding "
+             "for 1..9 entries. Bounded (not proof): get_merkle_tree / get_proof for every length up to a bound and every "
+             "position (proof reproduces the root and contains the leaf), structural edits with the real hash.",
+        note="Assumed: sha256d of a concatenation behaves as a free constructor (A-HASH injective, A-DOMSEP: a 32-byte id is "
+             "never the hash of a 64-byte pair in play) - in the Lean lemma only; the code-to-spec step needs sha256d to be "
+             "a function only. MerkleNode (recursive objects) is outside the executor's value classes: tree / inclusion "
+             "proofs are bounded only.",
+        technique=PROOF_TECH + "; function against a recursive specification function, Lean 4 lemma over the specification, "
+                  "bounded companion for the recursive tree objects"),
     'C11': dict(
         category='proof', design_ref='6/C11',
         text="MessageReceiver.receive is verified from source, path by path (44 path obligations), against a framing "
